@@ -22,6 +22,7 @@ use std::rc::Rc;
 pub const DEF: PropDef = PropDef { id: "C08", strata, run, setup, canaries: &["panic", "alloc", "io"] };
 
 fn setup(ctx: &mut Ctx) {
+    ctx.floor("no-section-table-but-phnum-in-shdr0", 500);
     ctx.floor("fabricated-header-queries", 10_000);
     ctx.floor("files", 1000);
     ctx.floor("opened", 300);
@@ -349,6 +350,16 @@ fn run(ctx: &mut Ctx, si: usize, _case: u64) {
             }
             if ctx.rng.chance(1, 8) {
                 log.extend(mutate::alias_tables(&mut ctx.rng, &mut b));
+            }
+            if ctx.rng.chance(1, 12) {
+                // the header-only corner: no section table (e_shoff == 0) but the program header count asks for
+                // shdr[0] (e_phnum == 0xffff), with any e_shentsize: opening may read the file header, nothing else
+                b.poke("ehdr.e_shoff", 0);
+                b.poke("ehdr.e_phnum", 0xffff);
+                let es = *ctx.rng.pick(&[0u64, 1, 39, 40, 63, 64, 65, 128, 512, 4096, 0xffff]);
+                b.poke("ehdr.e_shentsize", es);
+                log.push(format!("e_shoff=0, e_phnum=0xffff, e_shentsize={es:#x}"));
+                ctx.count("no-section-table-but-phnum-in-shdr0");
             }
             if ctx.rng.chance(1, 4) {
                 // several tables each spanning (nearly) the whole file
